@@ -86,6 +86,9 @@ class ModuleInfo:
         self.source = source
         self.normalised = {}
         self.tree = normalise(ast.parse(source), name, self.normalised)
+        from .canon import canonicalise
+        self.renamed = []
+        canonicalise(self.tree, name, self.renamed)
         self.lines = source.splitlines()
         self.imports = {}                      # local alias -> dotted target
         self.functions = {}                    # local qualname -> FuncInfo
